@@ -222,6 +222,26 @@ func vfC20RunSend(t *testing.T, c *vfc20.Case) (res *vfc20.Run) {
 				err = <-done
 			}
 			pr.Close()
+		} else if c.PipeSize > 0 {
+			// back-pressure runs: a SendRdb that never returns must become a verdict, not a test timeout. The wait is in
+			// VIRTUAL time: the timer fires only when every goroutine of the run is blocked for good.
+			pctx, pcancel := context.WithCancel(context.Background())
+			done := make(chan error, 1)
+			go func() {
+				done <- ro.SendRdb(pctx, &vfC04Reader{r: bufio.NewReaderSize(bytes.NewReader(data), 4096), size: int64(len(data))})
+			}()
+			select {
+			case err = <-done:
+				pcancel()
+			case <-time.After(10 * time.Minute):
+				res.Final = "hang"
+				res.Log = tg.LogCopy()[nSeed:]
+				res.Snapshot(tg, c, res.After)
+				pcancel() // ends the statistics goroutine; what is blocked without the context stays blocked
+				synctest.Wait()
+				tg.CloseAll()
+				return
+			}
 		} else {
 			err = ro.SendRdb(context.Background(), &vfC04Reader{r: bufio.NewReaderSize(bytes.NewReader(data), 4096), size: int64(len(data))})
 		}
@@ -269,6 +289,9 @@ func TestVerifC20Syncer(t *testing.T) {
 		r := vfC20RunSend(t, c)
 		if r.LoadErr != nil {
 			s.Violate("generator-rdb-rejected", r.LoadErr.Error(), c.Replay())
+			return
+		}
+		if !vfc20.CheckTerminated(s, c, r, "") {
 			return
 		}
 		if !c.Collides() {
@@ -346,6 +369,12 @@ func TestVerifC20Syncer(t *testing.T) {
 		for _, c := range vfc20.ExhaustiveModule(mode) {
 			run(c, "exhaustive-module")
 		}
+		for _, c := range vfc20.ExhaustiveEmpty(mode) {
+			run(c, "exhaustive-empty-collection")
+		}
+		for _, c := range vfc20.ExhaustiveExpiry(mode) {
+			run(c, "exhaustive-expiry-boundary")
+		}
 		for _, c := range vfc20.ExhaustiveBig(mode) {
 			run(c, "exhaustive-big")
 		}
@@ -383,6 +412,25 @@ func TestVerifC20Syncer(t *testing.T) {
 	for _, mode := range []string{"send", "sendbisync"} {
 		for _, c := range vfc20.BackPressure(mode) {
 			send(c, "send-backpressure")
+		}
+	}
+	// a worker FAILS while the distributor is blocked on full pipes: SendRdb returns, with the worker's error
+	for _, mode := range []string{"send", "sendbisync"} {
+		for _, c := range vfc20.BackPressureFail(mode) {
+			r := vfC20RunSend(t, c)
+			if r.LoadErr != nil {
+				s.Violate("generator-rdb-rejected", r.LoadErr.Error(), c.Replay())
+				continue
+			}
+			want := "err-exists"
+			if c.Pol != "error" {
+				want = "err-module"
+			}
+			if vfc20.CheckTerminated(s, c, r, want) {
+				vfc20.CheckParallel(s, c, r)
+				vfc20.CheckCells(s, c, r)
+			}
+			vfc20.Stats(s, c, r, "send-backpressure-fail")
 		}
 	}
 	// util.FnvHash (the distributor's hash) against the model's fnv32a
